@@ -115,6 +115,20 @@ fn main() {
             seeds.push((0..14).map(|i| format!("d{} = {{ d{} | d{} }}\n", i, i + 1, i + 1)).collect::<String>() + "d14 = { \"x\" }\n");
             // the same with rule modifiers that switch implicit skipping on and off at every level (the search is per rule and mode)
             seeds.push((0..14).map(|i| format!("e{} = @{{ f{}? ~ f{}? }}\nf{} = !{{ e{}? ~ e{}? }}\n", i, i, i, i, i + 1, i + 1)).collect::<String>() + "e14 = @{ \"x\" }\n");
+            // the same shape under a repetition / a choice: is_non_failing and is_non_progressing walk the chain
+            // (exponentially, before fix fc2c5d7)
+            seeds.push("x = { g0* }\n".to_string() + &(0..30).map(|i| format!("g{} = {{ g{} ~ g{} }}\n", i, i + 1, i + 1)).collect::<String>() + "g30 = { \"\" }\n");
+            seeds.push("x = { (h0 ~ \"x\")* ~ (h0 | \"y\") }\n".to_string() + &(0..30).map(|i| format!("h{} = {{ h{} ~ h{} | h{} }}\n", i, i + 1, i + 1, i + 1)).collect::<String>() + "h30 = { \"a\"? }\n");
+            // grammars on which the validator reports several errors at once, of every kind (the lists are sorted,
+            // merged and rendered): left recursion through explicit and implicit paths, repetitions and choices that
+            // cannot fail or progress, bad WHITESPACE / COMMENT, undefined / duplicate / reserved names
+            for t in ["WHITESPACE = _{ a }\na = !{ EOI ~ \"x\" }\n", "WHITESPACE = _{ a ~ \"y\" }\na = !{ \"x\"{,2} }\nCOMMENT = _{ b }\nb = !{ \"z\"? ~ \"w\" }\n",
+                "a = { b ~ \"x\" }\nb = { a | c }\nc = { c ~ \"y\" | d? ~ c }\nd = { \"d\" }\n",
+                "a = { (\"\")* ~ (\"x\"?)+ ~ (!\"y\")* ~ (b)* }\nb = { \"\" | \"c\" | \"d\"* | \"e\" }\n",
+                "WHITESPACE = { \"\" }\nCOMMENT = { !\"x\" }\na = { \"a\" ~ \"b\" }\n",
+                "a = { undefined1 ~ undefined2 }\na = { \"x\" }\nfn = { \"y\" }\nPUSH = { \"z\" }\nANY = { \"w\" }\nlet = { a }\n",
+                "WHITESPACE = _{ \" \" | n }\nn = !{ atp | p }\natp = @{ p ~ \"k\" }\np = { atq | q }\natq = @{ q ~ \"k\" }\nq = { \"x\"? ~ \"z\" }\n",
+                "a = ${ b ~ (\"x\" | c) }\nb = @{ a? ~ \"y\" }\nc = !{ (a | b)* }\nWHITESPACE = _{ c }\n"] { seeds.push(t.to_string()); }
             // repetition counts at the edges, in positions where they are read (not mutated further: a digit less gives a count
             // of hundreds of millions, outside "counts of bounded size")
             let mut fixed: Vec<String> = vec![];
@@ -122,7 +136,7 @@ fn main() {
                 "a = { \"x\"{3,2} }", "a = { \"x\"{1,} ~ (\"y\" | \"z\"){10,1} }", "a = { \"x\"{0} }", "a = { \"x\"{0,0} }", "a = { (\"x\"{2}){,3}{2,} }", "a = { PEEK[4294967296..] ~ PEEK[..-4294967296] }"] { fixed.push(t.to_string()); }
             seeds.push("a = { ( | \"b\" | c) ~ PUSH( | \"d\") ~ ^ \"e\" ~ (| (| \"f\")) }\nc = { \"c\" }\n".to_string());
             let n = if thorough { 200000 } else { 12000 };
-            let mut texts: Vec<String> = seeds[seeds.len() - 4..].to_vec(); texts.extend(fixed); texts.extend(vec!["".to_string(), " ".into(), "a".into(), "a = ".into(), "a = {".into(), "a = { }".into(), "a = { \"".into(), "\u{feff}a = { \"b\" }".into(), "a = { 'a'..'b' }".into(), "//!".into(), "///".into(), "/*".into()]);
+            let mut texts: Vec<String> = seeds[seeds.len() - 14..].to_vec(); texts.extend(fixed); texts.extend(vec!["".to_string(), " ".into(), "a".into(), "a = ".into(), "a = {".into(), "a = { }".into(), "a = { \"".into(), "\u{feff}a = { \"b\" }".into(), "a = { 'a'..'b' }".into(), "//!".into(), "///".into(), "/*".into()]);
             while texts.len() < n { let base = rng.pick(&seeds).clone(); let base = if base.len() > 1500 && rng.chance(3, 4) { let cs: Vec<char> = base.chars().collect(); let st = rng.below(cs.len() as u64) as usize; cs[st..(st + 400).min(cs.len())].iter().collect() } else { base }; texts.push(mutate(&mut rng, &base)); }
             for chunk in texts.chunks(1000) {
                 let res = run_batch(chunk, &dir, Duration::from_secs(30));
